@@ -43,7 +43,7 @@ INVARIANTS = ["TypeOK", "LastDefinerWins", "NothingLostNothingInvented", "Repeti
 
 TIERS = {
     "quick": dict(shapes=["none", "gv", "sv", "gv+gw", "sw"], maxlen=3, nseeds=4, slices=4, e3_every=4, scope_instance_every=6),
-    "thorough": dict(shapes=["none", "gv", "sv", "gv+sv", "gw", "gv+gw", "sw", "sv+sw"], maxlen=3, nseeds=8, slices=2, e3_every=3, scope_instance_every=2),
+    "thorough": dict(shapes=["none", "gv", "sv", "gv+sv", "gv+gw", "sw", "sv+sw"], maxlen=3, nseeds=6, slices=3, e3_every=3, scope_instance_every=2),
 }
 KEYS_OF = {"none": [], "gv": ["gv"], "sv": ["sv"], "gv+sv": ["gv", "sv"], "gw": ["gw"], "gv+gw": ["gv", "gw"], "sv+gw": ["sv", "gw"],
            "sw": ["sw"], "sv+sw": ["sv", "sw"]}
